@@ -35,7 +35,8 @@
    not hand-written: Model.v calls Gen/InterpWeights.v, REGENERATED from discr_utils.py on every
    run by translate/interp_weights.py, so the theorems are re-checked against the current source. *)
 From Coq Require Import ZArith QArith Reals List Bool.
-From Verif Require Import Base.Num Base.Vec C15.Syntax Gen.InterpWeights C15.Model C15.Call C15.Proofs C15.Refuted.
+From Coq Require Import Qreals.
+From Verif Require Import Base.Num Base.Vec C15.Syntax Gen.InterpWeights C15.Model C15.Call C15.Proofs C15.Refuted C15.Transfer.
 Import ListNotations.
 Local Open Scope R_scope.
 
@@ -345,19 +346,19 @@ Proof. exact resample_affine. Qed.
 Print Assumptions resampling_exact_on_affine.
 
 (* ------------------------------------------------------------------ *)
-(* The whole call, its recorded defects, and the provable restrictions.
+(* The whole call.
 
    [interp_call var kind schemes cvs dtype values input outarg] (C15/Call.v) is the public
    interpolator call including the inputs it rejects (ValueErr / TypeErr) and those on which it
-   produces nan/inf (NonFinite); [var] carries the measured variant of each recorded defect.
-   Full statements of the property that are FALSE of this faithful model:
+   produces nan/inf (NonFinite).  [current] is the code today; [as_found] is the pinned snapshot,
+   kept as an explicit variant after its two defects were repaired in /repo (e032ff0, d20d299).
 
+   Still FALSE of the faithful model (open finding linear-interp-single-node-axis-nonfinite):
      (F1) forall axis lengths >= 1: linear interpolation reproduces node values
-     (F2) forall inputs: a mesh-grid call and the point-array call on the same points agree
-     (F3) forall value dtypes incl. integer: per-axis 'nearest' returns the closest node value
-
-   Each is refuted by a computed witness (C15/Refuted.v, findings/C15.json), and the restriction
-   that IS provable is stated as a _partial theorem. *)
+   Repaired; the positive statements are now theorems about [current], the refutations remain
+   as statements about [as_found]:
+     (F2) a mesh-grid call and the point-array call on the same points agree
+     (F3) per-axis all-'nearest' returns the closest node value for integer / string values *)
 Theorem F1_node_reproduction_single_node_axis_refuted :
   exists (c v : list R) (var : variants),
     length c = 1%nat /\ length v = 1%nat /\
@@ -369,35 +370,106 @@ Theorem F1_partial_admissible_axes_never_degenerate : forall (l : list (scheme *
 Proof. exact good_not_degenerate. Qed.
 Print Assumptions F1_partial_admissible_axes_never_degenerate.
 
-Theorem F2_mesh_convention_first_axis_singleton_refuted :
+(* F2, live: the two calling conventions give the same OUTCOME on every well-formed call *)
+Theorem mesh_call_equals_points_call : forall (l : list (scheme * list R * list R)) (flat : list R),
+  let ss := map m_s l in let cvs := map m_c l in let mesh := map m_xs l in
+  has_linear ss = true ->
+  degenerate ss cvs = false -> malformed cvs (IPoints (cart mesh)) None = false ->
+  interp_call current KPerAxis ss cvs DFloat flat (IMesh mesh) None
+  = interp_call current KPerAxis ss cvs DFloat flat (IPoints (cart mesh)) None.
+Proof. exact mesh_call_equals_points. Qed.
+Print Assumptions mesh_call_equals_points_call.
+Theorem nearest_mesh_call_equals_points_call : forall (l : list (scheme * list R * list R)) dt (flat : list R),
+  let cvs := map m_c l in let mesh := map m_xs l in
+  malformed cvs (IPoints (cart mesh)) None = false ->
+  interp_call current KNearest [] cvs dt flat (IMesh mesh) None
+  = interp_call current KNearest [] cvs dt flat (IPoints (cart mesh)) None.
+Proof. exact nearest_mesh_call_equals_points. Qed.
+Print Assumptions nearest_mesh_call_equals_points_call.
+Theorem F2_old_variant_mesh_convention_refuted :
   exists (cvs : list (list R)) (v : list R) (mesh : list (list R)),
     interp_call as_found KLinear [] cvs DFloat v (IMesh mesh) None = ValueErr /\
     exists r, interp_call as_found KLinear [] cvs DFloat v (IPoints (cart mesh)) None = Ok r.
 Proof. exact mesh_convention_first_axis_singleton_refuted. Qed.
-(* with the defect repaired the two conventions give the same outcome on every well-formed call *)
-Theorem F2_partial_repaired_mesh_equals_points : forall (l : list (scheme * list R * list R)) (flat : list R),
-  let var := {| int_raises := false; mesh1_raises := false |} in
-  let ss := map m_s l in let cvs := map m_c l in let mesh := map m_xs l in
-  degenerate ss cvs = false -> malformed cvs (IPoints (cart mesh)) None = false ->
-  interp_call var KPerAxis ss cvs DFloat flat (IMesh mesh) None
-  = interp_call var KPerAxis ss cvs DFloat flat (IPoints (cart mesh)) None.
-Proof. exact repaired_mesh_equals_points. Qed.
-Print Assumptions F2_partial_repaired_mesh_equals_points.
 
-Theorem F3_peraxis_nearest_integer_values_refuted :
+(* F3, live: per_axis_interpolator with all-'nearest' schemes IS the nearest_interpolator call, for
+   every value dtype (integer, string), input and out argument; its values are characterised by
+   nearest_returns_closest_node above *)
+Theorem peraxis_all_nearest_call_is_nearest_call : forall k_ss (cvs : list (list R)) dt flat i o,
+  has_linear k_ss = false ->
+  interp_call current KPerAxis k_ss cvs dt flat i o = interp_call current KNearest k_ss cvs dt flat i o.
+Proof. exact peraxis_all_nearest_call. Qed.
+Print Assumptions peraxis_all_nearest_call_is_nearest_call.
+Theorem F3_old_variant_peraxis_nearest_integer_values_refuted :
   exists (c v : list R) (x : R),
     interp_call as_found KPerAxis [SNearest] [c] DInt v (IPoints [[x]]) None = TypeErr /\
     exists r, interp_call as_found KNearest [] [c] DInt v (IPoints [[x]]) None = Ok r.
 Proof. exact peraxis_nearest_integer_values_refuted. Qed.
-(* F3_partial = nearest_returns_closest_node above: on the values, the two evaluators agree. *)
 
-(* outside the defects, the call returns the values the theorems above speak about *)
-Theorem call_returns_model_values : forall (var : variants) k ss (cvs : list (list R)) flat i,
-  malformed cvs i None = false -> (mesh1_raises var && mesh1 i = false)%bool ->
-  degenerate (schemes_of k ss cvs) cvs = false ->
-  interp_call var k ss cvs DFloat flat i None = Ok (run k ss cvs flat i).
+(* the REGENERATED factory dispatch (Gen/InterpWeights.v, from per_axis_interp and
+   _LinearInterpolator.__init__): per_axis_interpolator is served by the index-based evaluator
+   exactly when no axis is 'linear', and linear_interpolator is per-axis 'linear' on every axis *)
+Theorem peraxis_dispatch_index_based_iff_no_linear : forall ss : list scheme,
+  gen_peraxis_index_based ss = negb (has_linear ss).
+Proof. exact index_based_no_linear. Qed.
+Theorem linear_interpolator_scheme : gen_linear_scheme = SLinear.
+Proof. exact linear_scheme_is_linear. Qed.
+
+(* the call returns the values the theorems above speak about *)
+Theorem call_returns_model_values : forall k ss (cvs : list (list R)) flat i,
+  malformed cvs i None = false -> degenerate (schemes_of k ss cvs) cvs = false ->
+  interp_call current k ss cvs DFloat flat i None = Ok (run current k ss cvs flat i).
 Proof. exact interp_call_float_ok. Qed.
 Print Assumptions call_returns_model_values.
+
+(* ------------------------------------------------------------------ *)
+(* T17 (calling conventions by shape).  [array_call_shape d xshape] (C15/Call.v) composes the
+   REGENERATED _check_interp_input / is_valid_input_array / out_shape_from_array with the
+   reshape of _Interpolator.__call__: None = ValueError, Some [] = scalar, Some [N] = N values.
+   For every grid dimension d >= 1 and EVERY input shape it equals the documented table
+   [conv_ref]:  d = 1: () -> scalar, (n,) -> n values, (1, n) -> n values;
+                d > 1: (d,) -> scalar, (d, n) -> n values;  everything else is rejected. *)
+Theorem calling_conventions_by_shape : forall (d : nat) (xshape : list nat), (1 <= d)%nat ->
+  array_call_shape d xshape =
+  if (d =? 1)%nat then
+    match xshape with
+    | [] => Some []
+    | [n] => Some [n]
+    | [a; n] => if (a =? 1)%nat then Some [n] else None
+    | _ => None
+    end
+  else
+    match xshape with
+    | [a] => if (a =? d)%nat then Some [] else None
+    | [a; n] => if (a =? d)%nat then Some [n] else None
+    | _ => None
+    end.
+Proof. exact array_call_shape_ref. Qed.
+Print Assumptions calling_conventions_by_shape.
+
+(* ------------------------------------------------------------------ *)
+(* T16 (transfer).  What the correspondence shards execute at Q (vm_compute on the SAME
+   polymorphic definitions, regenerated helpers included) is the rational restriction of what the
+   theorems above are about at R: Q2R commutes with the whole interpolator call, with mesh
+   evaluation and with collocation of the expression language -- for all inputs, no side
+   condition (x / 0 = 0 in both carriers). *)
+Theorem executed_call_is_restriction_of_proved_call :
+  forall var k ss (cvs : list (list Q)) dt (flat : list Q) (i : @input Q) o,
+  outQ2R (interp_call var k ss cvs dt flat i o)
+  = interp_call var k ss (map (map Q2R) cvs) dt (map Q2R flat) (inQ2R i) o.
+Proof. exact interp_call_transfer. Qed.
+Print Assumptions executed_call_is_restriction_of_proved_call.
+
+Theorem executed_mesh_is_restriction : forall ss (cvs : list (list Q)) shape flat (mesh : list (list Q)),
+  map Q2R (peraxis_mesh ss cvs (vget shape flat) mesh)
+  = peraxis_mesh ss (map (map Q2R) cvs) (vget shape (map Q2R flat)) (map (map Q2R) mesh).
+Proof. exact peraxis_mesh_transfer. Qed.
+Print Assumptions executed_mesh_is_restriction.
+
+Theorem executed_collocation_is_restriction : forall (e : fexpr) (cvs : list (list Q)),
+  map Q2R (collocate (feval e) cvs) = collocate (feval e) (map (map Q2R) cvs).
+Proof. exact collocate_transfer. Qed.
+Print Assumptions executed_collocation_is_restriction.
 
 (* ------------------------------------------------------------------ *)
 (* Non-vacuity: the hypotheses are satisfiable, and the same definitions run at Q. *)
